@@ -596,7 +596,7 @@ def gen_random_case(rng, tier):
 def generate(rng, tier):
     cases = targeted()
     streams = ["targeted"] * len(cases)
-    n = 1600 if tier == "quick" else 30000
+    n = 4500 if tier == "quick" else 40000
     for _ in range(n):
         cases.append(gen_random_case(rng, tier))
         streams.append("random")
